@@ -40,10 +40,12 @@ from ..engine.normalize import ANCHOR_NAMES, inline_helpers, positional
 from ..engine.report import AnalysisError, Run
 from ..engine.resolver import FuncInfo, Program, walk_no_nested
 from ..engine.sympath import Path
-from ..engine.util import method_call, u
+from ..engine.terms import Poly, TermEval
+from ..engine.util import canon, method_call, u
 from ._c09_util import (
-    MutationSummary, decided, entails_le, entails_lt, first_call, func_params, index_of, loop_paths,
-    lower_bounded, ordered_paths, self_attr_root, subscripts_of, upper_bounded,
+    MutationSummary, OrderedSymExec, decided, entails_le, entails_lt, first_call, func_params, index_of,
+    is_extreme_of, loop_paths, lower_bounded, none_test, ordered_paths, pre_name, rename_comp_vars,
+    self_attr_root, subscripts_of, truth, upper_bounded, variants, writes, zero,
 )
 
 BUF = "timeseries._ringbuffer.buffer"
@@ -532,7 +534,9 @@ def _index_arg(prog: Program, e: ast.AST | None, base: str, what: str) -> ast.AS
 def check_valid(run: Run, prog: Program) -> None:  # noqa: C901
     check_valid_update(run, prog)
     check_valid_window(run, prog)
+    check_window_cases(run, prog)
     check_valid_at(run, prog)
+    check_range(run, prog)
 
 
 def check_valid_update(run: Run, prog: Program) -> None:
@@ -561,6 +565,12 @@ def check_valid_update(run: Run, prog: Program) -> None:
             prev = sites.get((line, text))
             if prev is None or (prev[0] and not ok):
                 sites[(line, text)] = (ok, p)
+    for p in paths:
+        if p.exit == "raise" and not _is_assertion(p) and not any(p is r for r in rejecting):
+            run.violation("C09.VALID", up.qual, f"raise {u(p.ret)[:60]}",
+                          "update() raises although the (normalised) timestamp is not established to be older than "
+                          "the oldest slot of a non-empty window: samples inside or ahead of the window are rejected",
+                          node=up.node, file=up.file, path=p.describe())
     if not {"_timestamp_newest", "_timestamp_oldest", "_buffer", "_gaps"} <= kinds:
         raise AnalysisError(f"{up.qual}: expected writes of both time bounds, the data and the gap list, "
                             f"found {sorted(kinds)}")
@@ -659,6 +669,7 @@ def check_valid_at(run: Run, prog: Program) -> None:  # noqa: C901
     at = prog.func(f"{MW}:MovingWindow.at")
     run.analysed(at.qual)
     paths = ordered_paths(prog, at)
+    key = at.params[1]
     buf = "self._buffer"
     oldest, newest = f"{buf}.oldest_timestamp", f"{buf}.newest_timestamp"
     covered = (f"{buf}.count_covered()", "self.count_covered()", "len(self)")
@@ -695,6 +706,12 @@ def check_valid_at(run: Run, prog: Program) -> None:  # noqa: C901
                     k, kind = next(iter(ga.values())), "index"
                 forms.add(kind)
                 positions[kind].add(u(k))
+                kd, ki = truth(p, f"isinstance({key}, datetime)"), truth(p, f"isinstance({key}, int)")
+                run.check(kd is True if kind == "datetime" else ((kd is False or ki is True) and ki is not False),
+                          "C09.VALID", at.qual, f"{kind} key handled as {kind}",
+                          f"the {kind} way of reading is taken for a key that is not established to be "
+                          f"{'a datetime' if kind == 'datetime' else 'an index'} (datetime: {kd}, int: {ki}): every "
+                          "regular lookup fails", node=at.node, file=at.file, path=p.describe())
                 lo, hi = in_range(p, kind, k)
                 all_ok = all_ok and lo and hi
                 run.check(lo and hi, "C09.VALID", at.qual, f"return {u(sub)}",
@@ -728,7 +745,14 @@ def _gap_args(c: ast.Call) -> dict[str, ast.AST]:
     return positional(c, ["start", "end"])
 
 
-def check_gaps(run: Run, prog: Program) -> None:  # noqa: C901
+def check_gaps(run: Run, prog: Program) -> None:
+    check_gap_bounds(run, prog)
+    check_gap_cases(run, prog)
+    check_remove_gap(run, prog)
+    check_fill_stores(run, prog)
+
+
+def check_gap_bounds(run: Run, prog: Program) -> None:  # noqa: C901
     """C09.GAP: forward jumps mark every skipped slot; gap filling writes only inside the window."""
     fn = prog.func(f"{BUF}:OrderedRingBuffer._update_gaps")
     run.analysed(fn.qual)
@@ -798,8 +822,6 @@ def check_idx(run: Run, prog: Program) -> None:
     normalize_timestamp() snaps to: round((normalized T - _time_index_alignment) / _sampling_period)."""
     from ..engine.normalize import inline_helpers
     from ..engine.sympath import sym_paths
-    from ..engine.terms import Poly, TermEval
-
     fn = prog.func(f"{BUF}:OrderedRingBuffer.to_internal_index")
     nt = prog.func(f"{BUF}:OrderedRingBuffer.normalize_timestamp")
     run.analysed(fn.qual)
@@ -859,8 +881,748 @@ def check_idx(run: Run, prog: Program) -> None:
     ok = bool(rets) and all(
         isinstance(r, ast.BinOp) and isinstance(r.op, ast.Mod) and u(r.left) == wr.params[1]
         and u(r.right) in ("self.maxlen", "len(self._buffer)") for r in rets)
+    run.analysed(wr.qual)
     run.check(ok, "C09.IDX", wr.qual, "wrap(i) = i % maxlen",
               "wrap() is not the slot number modulo the capacity", node=wr.node, file=wr.file)
+    check_rounding(run, prog)
+
+
+# ---------------------------------------------------------------------------------------------
+# Rules added after the sensitivity sweep: what each small method of the map computes, decided per path.
+FULL = "self._full_time_range"
+NAN_TEXTS = {"np.nan", "numpy.nan", "math.nan", "float('nan')", "np.NaN", "nan"}
+_TE = TermEval()
+
+
+def _ast(x: Any) -> ast.AST:
+    return ast.parse(x, mode="eval").body if isinstance(x, str) else x
+
+
+def _poly(x: Any) -> Poly:
+    return _TE.ev(rename_comp_vars(_ast(x)))
+
+
+def _same(a: Any, b: Any) -> bool:
+    return a is not None and b is not None and _poly(a) == _poly(b)
+
+
+def _where(fn: FuncInfo, p: Path) -> dict[str, Any]:
+    return dict(node=fn.node, file=fn.file, path=p.describe())
+
+
+def _is_assertion(p: Path) -> bool:
+    return p.exit == "raise" and p.ret is not None and u(p.ret) == "AssertionError"
+
+
+def _raised(p: Path, exc: str) -> bool:
+    return p.exit == "raise" and p.ret is not None and exc in u(p.ret).split("(")[0]
+
+
+def check_store(run: Run, prog: Program) -> None:  # noqa: C901
+    """C09.STORE: what update() writes: newest = max(newest, T), oldest = newest - (range - period), the
+    sample's value (NaN iff it has none) at the slot of T, and _update_gaps(T, previous newest, missing)."""
+    up = prog.func(f"{BUF}:OrderedRingBuffer.update")
+    run.analysed(up.qual)
+    sample = up.params[1]
+    t_norm = f"self.normalize_timestamp({sample}.timestamp)"
+    has = f"self.has_value({sample})"
+    summ = MutationSummary(prog, _ring(prog))
+    g_ts, g_newest, g_rec = (_param(prog, "_update_gaps", i) for i in range(3))
+    n = 0
+    for p in ordered_paths(prog, up):
+        if p.exit == "raise":
+            continue
+        n += 1
+        where = _where(up, p)
+        ws = writes(p)
+        for e in p.calls():
+            hidden = summ.of_call(e.node) & (STATE - {"_gaps"})  # type: ignore[arg-type]
+            if hidden:
+                raise AnalysisError(f"{up.qual}: `{u(e.node)[:60]}` writes {sorted(hidden)} out of sight")
+        newest_w = [w for w in ws if u(w[1]) == NEWEST_F]
+        oldest_w = [w for w in ws if u(w[1]) == OLDEST_F]
+        data_w = [w for w in ws if isinstance(w[1], ast.Subscript) and u(w[1].value) == "self._buffer"]
+        gap_c = [(index_of(p, e), e) for e in p.calls(lambda c: method_call(c, "self", "_update_gaps"))]
+        # newest bound
+        v_new = newest_w[-1][2] if newest_w else _ast(NEWEST_F)
+        ok = len(newest_w) <= 1 and is_extreme_of(p, v_new, NEWEST_F, t_norm, True, newest_w[-1][0] if newest_w else None)
+        run.check(ok, "C09.STORE", up.qual, f"self._timestamp_newest = max(self._timestamp_newest, T) [{u(v_new)[:60]}]",
+                  "after update() the newest bound is not the later of the previous newest slot and the sample's "
+                  "(normalised) slot: the window does not end at the newest slot written", **where)
+        # oldest bound
+        ok = len(oldest_w) == 1 and (not newest_w or newest_w[-1][0] < oldest_w[0][0])
+        if ok:
+            cands = [NEWEST_F] + ([u(v_new)] if newest_w else [])
+            ok = any(_poly(oldest_w[0][2]) == _poly(c) - _poly(FULL) + _poly(STEP) for c in cands)
+        run.check(ok, "C09.STORE", up.qual, "self._timestamp_oldest = self._timestamp_newest - (range - period)",
+                  "after update() the oldest bound is not the (new) newest bound minus the capacity minus one "
+                  "period: the window does not cover exactly the last `capacity` slots", **where)
+        bounds_done = max([w[0] for w in newest_w + oldest_w], default=-1)
+        # the data
+        ok = len(data_w) == 1
+        if ok:
+            pos, tgt, val, _line = data_w[0]
+            slot_of = _index_arg(prog, tgt.slice, "self", up.qual)  # type: ignore[attr-defined]
+            hv = truth(p, has)
+            ok = u(slot_of) == t_norm and pos > bounds_done and (
+                (hv is True and u(val) == f"{sample}.value.base_value") or (hv is False and u(val) in NAN_TEXTS))
+        run.check(ok, "C09.STORE", up.qual, "self._buffer[self.to_internal_index(T)] = value if has_value else NaN",
+                  "update() does not store the sample's value (NaN iff it has no valid value) exactly once at the "
+                  "slot of its normalised timestamp, after the window moved", **where)
+        # the gap bookkeeping
+        ok = len(gap_c) == 1 and gap_c[0][0] > bounds_done
+        if ok:
+            a = _bound_args(prog, gap_c[0][1].node)  # type: ignore[arg-type]
+            prev = pre_name(newest_w[-1][3], NEWEST_F) if newest_w else NEWEST_F
+            rec = a.get(g_rec)
+            hv = truth(p, has)
+            if isinstance(rec, ast.Constant) and isinstance(rec.value, bool):
+                rec_ok = hv is not None and rec.value == (not hv)
+            else:
+                rec_ok = rec is not None and canon(rec) == ("not", ("truthy", has))
+            ok = u(a.get(g_ts)) == t_norm and u(a.get(g_newest)) == prev and rec_ok
+        run.check(ok, "C09.STORE", up.qual, "self._update_gaps(T, <newest before the update>, not has_value)",
+                  "the gap bookkeeping is not told the sample's slot, the newest slot *before* this update and "
+                  "whether the sample is missing", **where)
+    if not n:
+        raise AnalysisError(f"{up.qual}: no completing path")
+
+
+def check_fetch(run: Run, prog: Program) -> None:  # noqa: C901
+    """C09.FETCH: _wrapped_buffer_window returns buffer[s:e], or buffer[s:] ++ buffer[:e] when e <= s
+    (the ring wraps), as a copy when asked."""
+    fw = prog.func(f"{BUF}:OrderedRingBuffer._wrapped_buffer_window")
+    run.analysed(fw.qual)
+    b, s, e, fc = func_params(fw.node)[:4]
+
+    def is_slice(x: ast.AST | None, lo: str | None, hi: str | None) -> bool:
+        if not (isinstance(x, ast.Subscript) and u(x.value) == b and isinstance(x.slice, ast.Slice)
+                and x.slice.step is None):
+            return False
+        lo_ok = u(x.slice.lower) == lo if lo is not None else (x.slice.lower is None or u(x.slice.lower) == "0")
+        hi_ok = u(x.slice.upper) == hi if hi is not None else (
+            x.slice.upper is None or u(x.slice.upper) == f"len({b})")
+        return lo_ok and hi_ok
+
+    n = 0
+    for p in ordered_paths(prog, fw):
+        if p.exit != "return":
+            continue
+        n += 1
+        where = _where(fw, p)
+        r = p.ret
+        copied = False
+        if isinstance(r, ast.Call) and u(r.func) in ("deepcopy", "copy.deepcopy", "copy.copy") and len(r.args) == 1:
+            r, copied = r.args[0], True
+        elif isinstance(r, ast.Call) and isinstance(r.func, ast.Attribute) and r.func.attr == "copy" and not r.args:
+            r, copied = r.func.value, True
+        is_list = truth(p, f"isinstance({b}, list)")
+        if entails_lt(p, s, e):
+            ok = is_slice(r, s, e)
+            msg = "a window that does not wrap is not the contiguous slice buffer[start:end]"
+            if ok and truth(p, fc) is True and not copied:
+                ok, msg = False, "a copy was requested but a view on the stored data is returned"
+            if ok and copied and truth(p, fc) is False:
+                ok = True
+        elif entails_le(p, e, s):
+            parts: list[ast.AST] = []
+            if isinstance(r, ast.BinOp) and isinstance(r.op, ast.Add) and is_list is True:
+                parts = [r.left, r.right]
+            elif isinstance(r, ast.Call) and u(r.func) in ("np.concatenate", "numpy.concatenate") and len(r.args) == 1 \
+                    and isinstance(r.args[0], (ast.Tuple, ast.List)) and len(r.args[0].elts) == 2 and is_list is not True:
+                parts = list(r.args[0].elts)
+            ok = (len(parts) == 2 and is_slice(parts[0], s, None) and is_slice(parts[1], None, e)) or (
+                is_slice(r, s, None) and entails_le(p, e, "0"))
+            msg = ("a window that wraps around the end of the ring is not buffer[start:] followed by "
+                   "buffer[:end] in the buffer's own container type")
+        else:
+            ok, msg = False, "the wrap-around case (end position <= start position) is not told apart"
+        run.check(ok, "C09.FETCH", fw.qual, f"return {u(p.ret)[:80]}",
+                  f"{msg}: the query returns other slots than the ones it spans", **where)
+    if n < 3:
+        raise AnalysisError(f"{fw.qual}: only {n} returning paths")
+
+
+def _missing_count_ok(m: ast.AST) -> bool:
+    """max(0, sum((g.end - max(g.start, oldest bound)) // period for g in gaps))"""
+    if not (isinstance(m, ast.Call) and u(m.func) == "max" and len(m.args) == 2 and not m.keywords):
+        return False
+    rest = [a for a in m.args if u(a) != "0"]
+    if len(rest) != 1 or not (isinstance(rest[0], ast.Call) and u(rest[0].func) == "sum" and len(rest[0].args) == 1):
+        return False
+    g = rest[0].args[0]
+    if not (isinstance(g, (ast.GeneratorExp, ast.ListComp)) and len(g.generators) == 1 and not g.generators[0].ifs
+            and isinstance(g.generators[0].target, ast.Name) and u(g.generators[0].iter) in ("self._gaps", "self.gaps")):
+        return False
+    v = g.generators[0].target.id
+    elt = g.elt
+    return isinstance(elt, ast.BinOp) and isinstance(elt.op, ast.FloorDiv) and u(elt.right) == STEP \
+        and _same(elt.left, f"{v}.end - max({v}.start, {OLDEST_F})")
+
+
+def check_count(run: Run, prog: Program) -> None:  # noqa: C901
+    """C09.COUNT: the observers (count_valid, count_covered, oldest/newest timestamp, get_timestamp, has_value)
+    report what the bounds and the gap list say."""
+    q = f"{BUF}:OrderedRingBuffer."
+    # ---- has_value
+    hv = prog.func(q + "has_value")
+    run.analysed(hv.qual)
+    val = f"{hv.params[1]}.value"
+    n = 0
+    for p in ordered_paths(prog, hv, inline=False):
+        if p.exit != "return" or p.ret is None:
+            continue
+        for r, outcome in OrderedSymExec().test(p, p.ret, p.lineno, substituted=True):
+            n += 1
+            none, nan = none_test(r, val), truth(r, f"{val}.isnan()")
+            ok = outcome == (none is False and nan is False) and not (none is True and nan is not None)
+            run.check(ok, "C09.COUNT", hv.qual, "has_value == value is not None and not value.isnan()",
+                      f"has_value() is {outcome} although value-is-None is {none} and value-is-NaN is {nan}: missing "
+                      "samples are stored / counted as valid (or valid ones as missing)", **_where(hv, r))
+    if n < 3:
+        raise AnalysisError(f"{hv.qual}: only {n} outcomes")
+    # ---- time bounds as reported
+    for name, field in (("time_bound_oldest", OLDEST_F), ("time_bound_newest", NEWEST_F)):
+        fn = prog.func(q + name)
+        run.analysed(fn.qual)
+        for p in ordered_paths(prog, fn, inline=False):
+            run.check(p.exit == "return" and u(p.ret) == field, "C09.COUNT", fn.qual, f"return {field}",
+                      f"{name} does not report the {field[6:]} bound", **_where(fn, p))
+    for name, bounds in (("newest_timestamp", ("self.time_bound_newest", NEWEST_F)),
+                         ("oldest_timestamp", ("self.time_bound_oldest", OLDEST_F))):
+        fn = prog.func(q + name)
+        run.analysed(fn.qual)
+        for p in ordered_paths(prog, fn, inline=False):
+            if p.exit != "return":
+                continue
+            empty = zero(p, "self.count_valid()")
+            r = p.ret
+            if empty is True:
+                ok = r is None or u(r) == "None"
+            elif empty is False and name == "newest_timestamp":
+                ok = u(r) in bounds
+            elif empty is False:
+                miss = [truth(p, f"self.is_missing({b})") for b in bounds]
+                if True in miss:
+                    r2 = rename_comp_vars(r) if r is not None else None
+                    ok = r2 is not None and u(r2) in ("min((v0.end for v0 in self.gaps))", "min((v0.end for v0 in self._gaps))",
+                                                       "min([v0.end for v0 in self.gaps])", "min([v0.end for v0 in self._gaps])")
+                else:
+                    ok = False in miss and u(r) in bounds
+            else:
+                ok = False
+            run.check(ok, "C09.COUNT", fn.qual, f"return {u(r)[:60]}",
+                      f"{name} is not None exactly on an empty buffer and otherwise the "
+                      + ("newest bound" if name == "newest_timestamp" else
+                         "oldest bound, or the end of the gap that covers it"), **_where(fn, p))
+    # ---- get_timestamp
+    gt = prog.func(q + "get_timestamp")
+    run.analysed(gt.qual)
+    idx = gt.params[1]
+    for p in ordered_paths(prog, gt, inline=False):
+        if p.exit != "return":
+            continue
+        empty = none_test(p, "self.oldest_timestamp")
+        if empty is True:
+            ok = p.ret is None or u(p.ret) == "None"
+        elif empty is False and entails_le(p, "0", idx):
+            ok = _same(p.ret, f"self.oldest_timestamp + {idx} * {STEP}")
+        elif empty is False and entails_lt(p, idx, "0"):
+            ok = _same(p.ret, f"self.newest_timestamp + {STEP} + {idx} * {STEP}")
+        else:
+            ok = False
+        run.check(ok, "C09.COUNT", gt.qual, f"return {u(p.ret)[:70]}",
+                  "get_timestamp(i) is not oldest + i periods for i >= 0 / one past the newest + i periods for i < 0 "
+                  "(None on an empty buffer): index queries address other slots than the covered ones",
+                  **_where(gt, p))
+    # ---- covered range and counts
+    cr = prog.func(q + "_covered_time_range")
+    run.analysed(cr.qual)
+    for p in ordered_paths(prog, cr, inline=False):
+        if p.exit != "return":
+            continue
+        some = truth(p, "self.oldest_timestamp")
+        if some is None and none_test(p, "self.oldest_timestamp") is not None:
+            some = not none_test(p, "self.oldest_timestamp")
+        ok = (some is False and u(p.ret) in ("timedelta(0)", "timedelta()", "timedelta(seconds=0)")) or (
+            some is True and _same(p.ret, f"self.newest_timestamp - self.oldest_timestamp + {STEP}"))
+        run.check(ok, "C09.COUNT", cr.qual, f"return {u(p.ret)[:70]}",
+                  "the covered range is not newest - oldest + one period (zero on an empty buffer)", **_where(cr, p))
+    cc = prog.func(q + "count_covered")
+    run.analysed(cc.qual)
+    for p in ordered_paths(prog, cc, inline=False):
+        if p.exit != "return":
+            continue
+        r = p.ret
+        if isinstance(r, ast.Call) and u(r.func) == "int" and len(r.args) == 1:
+            r = r.args[0]
+        ok = isinstance(r, ast.BinOp) and isinstance(r.op, ast.FloorDiv) and (
+            (u(r.left), u(r.right)) in (("self._covered_time_range().total_seconds()", f"{STEP}.total_seconds()"),
+                                        ("self._covered_time_range()", STEP)))
+        run.check(ok, "C09.COUNT", cc.qual, f"return {u(p.ret)[:70]}",
+                  "count_covered is not the covered range in sampling periods", **_where(cc, p))
+    cv = prog.func(q + "count_valid")
+    run.analysed(cv.qual)
+    s_pos, e_pos = f"self.to_internal_index({OLDEST_F})", f"self.to_internal_index({NEWEST_F})"
+    n = 0
+    for p in ordered_paths(prog, cv, inline=False):
+        if p.exit != "return":
+            continue
+        n += 1
+        if _empty_before(p, None):
+            ok = u(p.ret) == "0"
+        elif any(decided(p, ("==", s)) is False for s in EMPTY_SENTINELS):
+            base = None
+            if entails_le(p, s_pos, e_pos):
+                base = _poly(e_pos) + _poly("1") - _poly(s_pos)
+            elif entails_lt(p, e_pos, s_pos):
+                base = _poly(e_pos) + _poly("1") - _poly(s_pos)
+                caps = [c for c in ("len(self._buffer)", "self.maxlen") if p.ret is not None and c in u(p.ret)]
+                base = base + _poly(caps[0]) if len(caps) == 1 else None
+            ok = False
+            if base is not None and p.ret is not None:
+                for m in [x for x in ast.walk(p.ret) if isinstance(x, ast.Call) and u(x.func) == "max"]:
+                    if _missing_count_ok(m) and _poly(p.ret) == base - _poly(m):
+                        ok = True
+        else:
+            ok = False
+        run.check(ok, "C09.COUNT", cv.qual, f"return {u(p.ret)[:80]}",
+                  "count_valid is not (slots between the oldest and the newest bound, modulo the capacity) minus the "
+                  "slots covered by gaps inside the window (0 on a buffer never written)", **_where(cv, p))
+    if n < 3:
+        raise AnalysisError(f"{cv.qual}: only {n} returning paths")
+
+
+NONE_SCOPE = ["update", "window", "get_timestamp", "_covered_time_range", "to_internal_index", "_update_gaps",
+              "_remove_gap", "oldest_timestamp", "newest_timestamp", "count_valid"]
+
+
+def _uses(x: ast.AST, text: str) -> bool:
+    """Is a value with that text dereferenced, computed with, ordered or passed on inside expression x?"""
+    parents: dict[int, ast.AST] = {}
+    for n in ast.walk(x):
+        for c in ast.iter_child_nodes(n):
+            parents[id(c)] = n
+    for n in ast.walk(x):
+        if u(n) != text or not isinstance(n, ast.expr):
+            continue
+        par = parents.get(id(n))
+        if par is None:
+            continue
+        if isinstance(par, ast.Compare) and all(isinstance(o, (ast.Is, ast.IsNot, ast.Eq, ast.NotEq)) for o in par.ops):
+            continue
+        if isinstance(par, (ast.Attribute, ast.Subscript, ast.BinOp, ast.UnaryOp, ast.Compare)):
+            return True
+        if isinstance(par, ast.Call) and n is not par.func and not u(par.func).startswith(("_logger.", "logging.", "print")):
+            return True
+    return False
+
+
+def check_none(run: Run, prog: Program) -> None:
+    """C09.NONE: a value a path has established to be None is not used afterwards on that path (an inverted
+    `assert x is not None` / `if x is None` makes every regular call fail or compute with None)."""
+    fns = [prog.func(f"{BUF}:OrderedRingBuffer.{m}") for m in NONE_SCOPE] + [prog.func(f"{MW}:MovingWindow.at")]
+    n = 0
+    for fn in fns:
+        run.analysed(fn.qual)
+        for p in ordered_paths(prog, fn):
+            if p.exit == "raise":
+                continue
+            for i, e in enumerate(p.effects):
+                if e.kind != "cond":
+                    continue
+                key, outcome = e.orig  # type: ignore[misc]
+                if not (isinstance(key, tuple) and key[0] == "is" and "None" in key[1] and len(key[1]) == 2 and outcome):
+                    continue
+                n += 1
+                x = next(iter(key[1] - {"None"}))
+                later = [f.node.elts[1] if f.kind == "write" else f.node for f in p.effects[i + 1:]
+                         if f.kind in ("call", "write", "cond")]
+                later += [f.node.elts[0] for f in p.effects[i + 1:] if f.kind == "write"]  # type: ignore[attr-defined]
+                if p.ret is not None and u(p.ret) != x:
+                    later.append(p.ret)
+                bad = next((y for y in later if _uses(y, x)), None)
+                run.check(bad is None, "C09.NONE", fn.qual, f"{x} is None ... {u(bad)[:60] if bad is not None else ''}",
+                          f"`{x}` was established to be None on this path and is used afterwards: the check that "
+                          "should exclude the empty case is inverted, every regular call fails", **_where(fn, p))
+    if n < 3:
+        raise AnalysisError(f"C09.NONE: only {n} None-establishing paths found")
+
+
+def _gap_ops(p: Path) -> dict[str, list[tuple[int, Any]]]:
+    """Operations on the gap list on this path: Gap list assignments, appended gaps, removals, clean-ups."""
+    ops: dict[str, list[tuple[int, Any]]] = {"assign": [], "append": [], "remove": [], "cleanup": [], "other": []}
+    for i, e in enumerate(p.effects):
+        if e.kind == "write" and self_attr_root(e.node.elts[0]) == "_gaps":  # type: ignore[attr-defined]
+            tgt, val = e.node.elts  # type: ignore[attr-defined]
+            ops["assign" if u(tgt) == "self._gaps" else "other"].append((i, val))
+        elif e.kind == "del" and self_attr_root(e.node) == "_gaps":
+            ops["other"].append((i, e.node))
+        elif e.kind == "call":
+            c = e.node
+            assert isinstance(c, ast.Call)
+            if method_call(c, "self._gaps", "append") and len(c.args) == 1:
+                ops["append"].append((i, c.args[0]))
+            elif method_call(c, "self", "_remove_gap"):
+                ops["remove"].append((i, c))
+            elif method_call(c, "self", "_cleanup_gaps"):
+                ops["cleanup"].append((i, c))
+            elif isinstance(c.func, ast.Attribute) and self_attr_root(c.func.value) == "_gaps" \
+                    and c.func.attr in ("extend", "insert", "remove", "pop", "clear", "sort", "reverse"):
+                ops["other"].append((i, c))
+    return ops
+
+
+def _gap_is(g: ast.AST | None, start: Any, end: Any) -> bool:
+    if not (isinstance(g, ast.Call) and u(g.func) == "Gap"):
+        return False
+    a = _gap_args(g)
+    return _same(a.get("start"), start) and _same(a.get("end"), end)
+
+
+def check_gap_cases(run: Run, prog: Program) -> None:  # noqa: C901
+    """C09.GAP: the case analysis of _update_gaps (which gaps a sample creates / removes) per path."""
+    fn = prog.func(f"{BUF}:OrderedRingBuffer._update_gaps")
+    run.analysed(fn.qual)
+    ts, newest, rec = fn.params[1], fn.params[2], fn.params[3]
+    first_unwritten = f"{newest} + {STEP}"
+    diff = f"{NEWEST_F} - {newest}"
+    n = 0
+    for p in ordered_paths(prog, fn):
+        if p.exit == "raise":
+            continue
+        n += 1
+        where = _where(fn, p)
+        ops = _gap_ops(p)
+        missing, found = truth(p, rec), truth(p, f"self.is_missing({ts})")
+        reset = False
+        what, ok = "", True
+        if ops["other"]:
+            raise AnalysisError(f"{fn.qual}: gap-list operation `{u(ops['other'][0][1])[:60]}` not understood")
+        if missing is None:
+            ok, what = False, "the sample's missing flag is not examined"
+        elif missing is False:
+            far, near = entails_le(p, FULL, diff), entails_lt(p, diff, FULL)
+            if far:
+                reset = True
+                ok = len(ops["assign"]) == 1 and not ops["append"] and not ops["remove"] \
+                    and isinstance(ops["assign"][0][1], ast.List) and len(ops["assign"][0][1].elts) == 1 \
+                    and _gap_is(ops["assign"][0][1].elts[0], OLDEST_F, NEWEST_F)
+                what = ("a valid sample that jumps ahead by the whole capacity or more must leave exactly one gap "
+                        "covering the window [oldest, newest)")
+            elif not near:
+                ok, what = False, "a valid sample is handled without examining whether it jumps ahead by the whole capacity"
+            elif ops["assign"]:
+                ok, what = False, "the gap list is replaced although the sample did not jump ahead by the whole capacity"
+            elif found is True:
+                gone = len(ops["remove"]) == 1 and u(next(iter(_bound_args(prog, ops["remove"][0][1]).values()), None)) == ts
+                exempt = zero(p, "len(self._gaps)") is True or truth(p, "self._gaps") is False
+                ok = not ops["append"] and (gone or (exempt and not ops["remove"]))
+                what = "a valid sample written into a slot that is recorded as missing must take that slot out of its gap"
+            elif found is False:
+                jump, adjacent = entails_lt(p, first_unwritten, ts), entails_le(p, ts, first_unwritten)
+                if jump:
+                    ok = len(ops["append"]) == 1 and _gap_is(ops["append"][0][1], first_unwritten, ts) and not ops["remove"]
+                    what = ("a valid sample that skips slots must record exactly the skipped slots "
+                            f"[{newest} + period, {ts}) as one gap")
+                elif adjacent:
+                    ok = not ops["append"] and not ops["remove"]
+                    what = "a valid sample that skips no slot must not change the gap list"
+                else:
+                    ok, what = False, "a valid sample is handled without examining whether it skips slots"
+            else:
+                ok, what = False, "a valid sample is handled without examining whether its slot is recorded as missing"
+        else:
+            if ops["assign"] or ops["remove"]:
+                ok, what = False, "a missing sample must not replace the gap list or take a slot out of a gap"
+            elif found is True:
+                ok, what = not ops["append"], "a missing sample inside a gap must not add a gap"
+            elif found is False:
+                ok = len(ops["append"]) == 1 and isinstance(ops["append"][0][1], ast.Call) \
+                    and u(ops["append"][0][1].func) == "Gap"
+                if ok:
+                    a = _gap_args(ops["append"][0][1])  # type: ignore[arg-type]
+                    ok = _same(a.get("end"), f"{ts} + {STEP}") and upper_bounded(p, a.get("start"), {ts}, ops["append"][0][0])
+                what = f"a missing sample outside every gap must record one gap that covers its slot and ends at {ts} + period"
+            else:
+                ok, what = False, "a missing sample is handled without examining whether its slot is already recorded as missing"
+        run.check(ok, "C09.GAP", fn.qual, f"missing={missing} in-gap={found}: {what[:60]}",
+                  f"{what} (gap operations on this path: "
+                  f"{[u(x)[:50] for k in ('assign', 'append', 'remove') for _i, x in ops[k]]})", **where)
+        if not reset:
+            last = max([i for k in ("assign", "append", "remove") for i, _x in ops[k]], default=-1)
+            ok = bool(ops["cleanup"]) and ops["cleanup"][-1][0] > last
+            run.check(ok, "C09.GAP", fn.qual, "self._cleanup_gaps() after the gap list changed / the window moved",
+                      "the gap list is not normalised (outdated gaps dropped, start trimmed to the window, neighbours "
+                      "merged) after the update: gaps / count_valid report evicted slots", **where)
+    if n < 6:
+        raise AnalysisError(f"{fn.qual}: only {n} completing paths")
+
+
+def check_remove_gap(run: Run, prog: Program) -> None:  # noqa: C901
+    """C09.GAP: _remove_gap(T) turns the gap [s, e) that contains T into [s, T) and [T + period, e), dropping empty
+    pieces, and touches nothing else."""
+    fn = prog.func(f"{BUF}:OrderedRingBuffer._remove_gap")
+    run.analysed(fn.qual)
+    ts = fn.params[1]
+    after = f"{ts} + {STEP}"
+    n = 0
+    for p in ordered_paths(prog, fn):
+        if p.exit == "raise":
+            continue
+        where = _where(fn, p)
+        tests = [e for e in p.effects if e.kind == "cond" and isinstance(e.orig[0], tuple)  # type: ignore[index]
+                 and e.orig[0][0] == "is" and "None" in e.orig[0][1]]  # type: ignore[index]
+        g_ast = None
+        if tests and isinstance(tests[0].node, ast.Compare):
+            g_ast = next((x for x in [tests[0].node.left] + tests[0].node.comparators if u(x) != "None"), None)
+        # the gap is the first one that contains T (None when there is none)
+        ok = isinstance(g_ast, ast.Subscript) and u(g_ast.slice) == "1" and isinstance(g_ast.value, ast.Call) \
+            and u(g_ast.value.func) == "next" and len(g_ast.value.args) == 2
+        if ok:
+            flt, dflt = g_ast.value.args  # type: ignore[union-attr]
+            ok = isinstance(flt, ast.Call) and u(flt.func) == "filter" and len(flt.args) == 2 \
+                and isinstance(flt.args[0], ast.Lambda) and len(flt.args[0].args.args) == 1 \
+                and u(flt.args[0].body) == f"{flt.args[0].args.args[0].arg}[1].contains({ts})" \
+                and u(flt.args[1]) == "enumerate(self._gaps)" \
+                and isinstance(dflt, ast.Tuple) and len(dflt.elts) == 2 and u(dflt.elts[1]) == "None"
+        if not ok:
+            run.violation("C09.GAP", fn.qual, "gap = first gap of self._gaps that contains T, else None",
+                          "_remove_gap does not work on the (first) recorded gap that contains the timestamp, or does "
+                          f"not examine whether there is one (found `{u(g_ast)[:80]}`)", **where)
+            continue
+        assert g_ast is not None
+        g = u(g_ast)
+        idx = u(ast.Subscript(value=g_ast.value, slice=ast.Constant(0), ctx=ast.Load()))  # type: ignore[attr-defined]
+        ops = _gap_ops(p)
+        ws = writes(p)
+        if tests[0].orig[1]:  # type: ignore[index]
+            run.check(not ws and not any(ops.values()), "C09.GAP", fn.qual, "no gap contains T: nothing to do",
+                      "the gap list is changed although no gap contains the timestamp", **where)
+            continue
+        n += 1
+        s0, e0 = f"{g}.start", f"{g}.end"
+        left_empty = decided(p, ("==", frozenset({s0, ts})))
+        right_tests = [decided(p, ("==", frozenset({e0, t}))) for t in variants(after)] + [
+            decided(p, ("==", frozenset({f"{e0} - {STEP}", ts})))]
+        right_empty = True if True in right_tests else (False if False in right_tests else None)
+        deleted = any(k == "other" and u(x) == f"self._gaps[{idx}]" for k, v in ops.items() for _i, x in v
+                      if isinstance(x, ast.Subscript))
+        pieces: list[tuple[Any, Any]] = []
+        copies = [x for _i, x in ops["append"]]
+        first_store = min([i for i, t, _v, _l in ws if u(t) in (s0, e0)], default=10 ** 9)
+        understood = all(u(t) in (s0, e0) or any(u(t) in (f"{u(c)}.start", f"{u(c)}.end") for c in copies)
+                         for _i, t, _v, _l in ws) and not ops["assign"] and not ops["remove"] \
+            and all(u(x) == f"self._gaps[{idx}]" for _i, x in ops["other"])
+        for c in copies:
+            took = first_call(p, u(c))
+            if not (isinstance(c, ast.Call) and u(c.func) in ("deepcopy", "copy.deepcopy", "copy.copy", "copy")
+                    and len(c.args) == 1 and u(c.args[0]) == g and took is not None and took < first_store):
+                understood = False
+                continue
+            cs = next((v for _i, t, v, _l in reversed(ws) if u(t) == f"{u(c)}.start"), _ast(s0))
+            ce = next((v for _i, t, v, _l in reversed(ws) if u(t) == f"{u(c)}.end"), _ast(e0))
+            pieces.append((cs, ce))
+        if not deleted:
+            ms = next((v for _i, t, v, _l in reversed(ws) if u(t) == s0), _ast(s0))
+            me = next((v for _i, t, v, _l in reversed(ws) if u(t) == e0), _ast(e0))
+            pieces.append((ms, me))
+        want: list[tuple[str, str]] = []
+        if left_empty is not True:
+            want.append((s0, ts))
+        if right_empty is not True:
+            want.append((after, e0))
+        got = sorted((repr(_poly(a)), repr(_poly(b))) for a, b in pieces)
+        exp = sorted((repr(_poly(a)), repr(_poly(b))) for a, b in want)
+        ok = understood and left_empty is not None and right_empty is not None and got == exp
+        run.check(ok, "C09.GAP", fn.qual,
+                  f"[s, e) without T -> {' + '.join(f'[{a}, {b})' for a, b in want) or 'nothing'}",
+                  f"taking `{ts}` out of the gap [{s0}, {e0}) that contains it leaves "
+                  f"{[(u(_ast(a))[:40], u(_ast(b))[:40]) for a, b in pieces]} instead of the non-empty ones of "
+                  f"[start, {ts}) and [{ts} + period, end): a written slot stays recorded as missing or a missing one "
+                  "is reported as valid", **where)
+    if n < 4:
+        raise AnalysisError(f"{fn.qual}: only {n} paths with a gap found")
+
+
+def check_fill_stores(run: Run, prog: Program) -> None:
+    """C09.GAP: inside _fill_gaps every gap with a non-empty clamped slot range is written, with exactly as many
+    fill values as the range has slots, in the container's own way."""
+    fg = prog.func(f"{BUF}:OrderedRingBuffer._fill_gaps")
+    run.analysed(fg.qual)
+    data, fill = fg.params[1], fg.params[2]
+    body = loop_paths(ordered_paths(prog, fg), fg.qual)
+    ranges: set[tuple[str, str]] = set()
+    stores = []
+    for p in body:
+        for i, tgt, val, _line in writes(p):
+            if isinstance(tgt, ast.Subscript) and u(tgt.value) == data and isinstance(tgt.slice, ast.Slice):
+                lo, hi = tgt.slice.lower, tgt.slice.upper
+                ranges.add((u(lo), u(hi)))
+                stores.append((p, i, lo, hi, val))
+    if not stores:
+        raise AnalysisError(f"{fg.qual}: no slice store inside the loop over the gaps")
+    for p, i, lo, hi, val in stores:
+        arr, lst = truth(p, f"isinstance({data}, np.ndarray)"), truth(p, f"isinstance({data}, list)")
+        if u(val) == fill:
+            ok = arr is True or lst is False
+        else:
+            ok = isinstance(val, ast.BinOp) and isinstance(val.op, ast.Mult) and (lst is True or arr is False)
+            if ok:
+                rep, cnt = (val.left, val.right) if isinstance(val.left, ast.List) else (val.right, val.left)
+                ok = isinstance(rep, ast.List) and len(rep.elts) == 1 and u(rep.elts[0]) == fill \
+                    and lo is not None and hi is not None and _poly(cnt) == _poly(hi) - _poly(lo)
+        run.check(ok and entails_lt(p, lo, hi, i), "C09.GAP", fg.qual, f"{data}[lo:hi] = {u(val)[:60]}",
+                  "the slots of a gap are not overwritten by exactly (hi - lo) fill values in the container's own "
+                  "way under lo < hi: a list window changes its length (more / fewer slots than the query spans)",
+                  **_where(fg, p))
+    for p in body:
+        if any(isinstance(t, ast.Subscript) and u(t.value) == data for _i, t, _v, _l in writes(p)):
+            continue
+        empty = any(entails_le(p, hi, lo) for lo, hi in ranges)
+        foreign = truth(p, f"isinstance({data}, np.ndarray)") is False and truth(p, f"isinstance({data}, list)") is False
+        run.check(empty or foreign, "C09.GAP", fg.qual, "a gap is skipped only if its clamped slot range is empty",
+                  "a gap whose clamped slot range is not empty is not filled: the query returns the stale / unwritten "
+                  "values of missing slots instead of the fill value", **_where(fg, p))
+
+
+def check_window_cases(run: Run, prog: Program) -> None:  # noqa: C901
+    """C09.VALID: window(): which queries are answered how (copy before fill, index queries projected on the
+    covered range, empty answers and exceptions only where the query calls for them)."""
+    wn = prog.func(f"{BUF}:OrderedRingBuffer.window")
+    run.analysed(wn.qual)
+    start, end = wn.params[1], wn.params[2]
+    fv, fc = "fill_value", "force_copy"
+    if fv not in wn.params or fc not in wn.params:
+        raise AnalysisError(f"{wn.qual}: public parameters fill_value / force_copy not found")
+    p_start, p_end = _param(prog, "_wrapped_buffer_window", 1), _param(prog, "_wrapped_buffer_window", 2)
+    p_fc = _param(prog, "_wrapped_buffer_window", 3)
+    paths = ordered_paths(prog, wn)
+    is_dt = lambda p, x: truth(p, f"isinstance({x}, datetime)")  # noqa: E731
+    pairs: set[tuple[str, str]] = set()
+
+    def projected(x: ast.AST, which: int) -> bool:
+        """x == self.get_timestamp(slice(start, end).indices(self.count_covered())[..][which])"""
+        calls = [c for c in ast.walk(x) if isinstance(c, ast.Call) and method_call(c, "self", "get_timestamp")]
+        if len(calls) != 1:
+            return False
+        a = next(iter(_bound_args(prog, calls[0]).values()), None)
+        if not (isinstance(a, ast.Subscript) and u(a.slice) == str(which)):
+            return False
+        base = a.value
+        while isinstance(base, ast.Subscript) and isinstance(base.slice, ast.Slice):
+            base = base.value
+        return isinstance(base, ast.Call) and isinstance(base.func, ast.Attribute) and base.func.attr == "indices" \
+            and [u(x) for x in base.args] == ["self.count_covered()"] and not base.keywords \
+            and u(base.func.value) == f"slice({start}, {end})"
+
+    fetch = 0
+    for p in paths:
+        for w in p.calls(lambda c: method_call(c, None, "_wrapped_buffer_window")):
+            a = _bound_args(prog, w.node)  # type: ignore[arg-type]
+            pairs.add((u(_index_arg(prog, a.get(p_start), "self", wn.qual)),
+                       u(_index_arg(prog, a.get(p_end), "self", wn.qual))))
+    for p in paths:
+        ws = p.calls(lambda c: method_call(c, None, "_wrapped_buffer_window"))
+        where = _where(wn, p)
+        ks, ke = is_dt(p, start), is_dt(p, end)
+        if ws:
+            fetch += 1
+            a = _bound_args(prog, ws[0].node)  # type: ignore[arg-type]
+            xs = _index_arg(prog, a.get(p_start), "self", wn.qual)
+            xe = _index_arg(prog, a.get(p_end), "self", wn.qual)
+            conv = ["self.get_timestamp(" in u(x) for x in (xs, xe)]
+            if any(conv):
+                ok = all(conv) and ks is False and ke is False and projected(xs, 0) and projected(xe, 1)
+            else:
+                ok = ks is True and ke is True
+            run.check(ok, "C09.VALID", wn.qual, "index bounds -> slice(start, end).indices(count_covered()) -> get_timestamp",
+                      "a query by index is not first projected on the covered range (None, negative and out-of-range "
+                      "indices) and then converted to timestamps, or a query by datetime is converted: the query "
+                      f"fails or addresses other slots (start datetime: {ks}, end datetime: {ke})", **where)
+            if p.calls(lambda c: method_call(c, "self", "_fill_gaps")):
+                c = a.get(p_fc)
+                ok = (isinstance(c, ast.Constant) and c.value is True) or (c is not None and truth(p, u(c)) is True)
+                run.check(ok, "C09.VALID", wn.qual, "fill only a copy (force_copy established true)",
+                          "the fill values are written into what may be a view on the ring: a query overwrites the "
+                          "stored data of missing slots", **where)
+        elif p.exit == "return":
+            ok = zero(p, "self.count_covered()") is True or any(entails_le(p, xe, xs) for xs, xe in pairs)
+            run.check(ok, "C09.VALID", wn.qual, "empty answer only for an empty buffer or an empty clamped range",
+                      "window() answers with nothing although the buffer covers slots and the clamped query range "
+                      "is not established to be empty", **where)
+        if p.exit == "raise" and not _is_assertion(p):
+            converted = bool(p.calls(lambda c: method_call(c, "self", "get_timestamp")))
+            if _raised(p, "ValueError"):
+                ok = none_test(p, fv) is False and truth(p, fc) is False
+            elif _raised(p, "IndexError"):
+                not_dt = any(e.kind == "cond" and e.orig[1] is False and isinstance(e.orig[0], tuple)  # type: ignore[index]
+                             and e.orig[0][0] == "truthy"  # type: ignore[index]
+                             and e.orig[0][1].startswith("isinstance(self.get_timestamp(")  # type: ignore[index]
+                             and e.orig[0][1].endswith(", datetime)") for e in p.effects)  # type: ignore[index]
+                ok = (ks is not None and ke is not None and ks != ke) or (converted and not_dt)
+            else:
+                ok = False
+            run.check(ok, "C09.VALID", wn.qual, f"raise {u(p.ret)[:40]}",
+                      "window() raises on a query it has to answer: ValueError is for fill_value together with "
+                      "force_copy=False only, IndexError for one datetime and one index only", **where)
+    if not fetch or not pairs:
+        raise AnalysisError(f"{wn.qual}: no path fetches data")
+
+
+def check_range(run: Run, prog: Program) -> None:
+    """C09.VALID: to_internal_index raises IndexError exactly for T outside [oldest, newest + period] (unless told
+    not to check)."""
+    fn = prog.func(f"{BUF}:OrderedRingBuffer.to_internal_index")
+    run.analysed(fn.qual)
+    t = f"self.normalize_timestamp({fn.params[1]})"
+    allow = fn.params[2]
+    hi = f"{NEWEST_F} + {STEP}"
+    n = 0
+    for p in ordered_paths(prog, fn):
+        if _is_assertion(p):
+            continue
+        n += 1
+        unchecked = truth(p, allow)
+        if p.exit == "raise":
+            ok = _raised(p, "IndexError") and unchecked is False and (entails_lt(p, hi, t) or entails_lt(p, t, OLDEST_F))
+            what = "raises although the timestamp is not established to lie outside [oldest, newest + period]"
+        else:
+            ok = unchecked is True or (entails_le(p, t, hi) and entails_le(p, OLDEST_F, t))
+            what = "answers although the timestamp is not established to lie inside [oldest, newest + period]"
+        run.check(ok, "C09.VALID", fn.qual, f"{p.exit}: {u(p.ret)[:50]}",
+                  f"to_internal_index {what}: update() / window() fail on slots of the window (the slot after the "
+                  "newest is the exclusive end of a query) or wrap onto other slots", **_where(fn, p))
+    if n < 3:
+        raise AnalysisError(f"{fn.qual}: only {n} paths")
+
+
+def check_rounding(run: Run, prog: Program) -> None:
+    """C09.IDX: normalize_timestamp goes to a *nearest* grid point: the quotient, or the quotient + 1 when the
+    remainder is at least half a period; a grid point is a fixed point.  (The clamp rules of window() rely on
+    normalisation being monotone and leaving aligned bounds alone.)"""
+    nt = prog.func(f"{BUF}:OrderedRingBuffer.normalize_timestamp")
+    run.analysed(nt.qual)
+    origin = "self._time_index_alignment"
+    half = {f"{STEP} / 2", f"0.5 * {STEP}"}
+    for p in ordered_paths(prog, nt):
+        if p.exit != "return":
+            continue
+        dm = [e.node for e in p.calls(lambda c: u(c.func) == "divmod")]
+        ok = len(dm) == 1
+        if ok:
+            quot, rem = f"{u(dm[0])}[0]", f"{u(dm[0])}[1]"
+            zero_rem = any(decided(p, ("==", frozenset({rem, z}))) is True for z in ("timedelta(0)", "timedelta()"))
+            if _same(p.ret, f"{origin} + ({quot}) * {STEP}"):
+                ok = zero_rem or upper_bounded(p, _ast(rem), half)
+            elif _same(p.ret, f"{origin} + ({quot} + 1) * {STEP}"):
+                ok = not zero_rem and lower_bounded(p, _ast(rem), half)
+            else:
+                ok = False
+        run.check(ok, "C09.IDX", nt.qual, f"return {u(p.ret)[:70]}",
+                  "normalize_timestamp does not go to a nearest point of the slot grid (quotient, or quotient + 1 "
+                  "from half a period on): timestamps are stored in a slot further away, later timestamps can land "
+                  "in earlier slots and aligned query bounds move", **_where(nt, p))
 
 
 _GUARD = (
@@ -935,6 +1697,59 @@ CONTROLS = [
      "Gap(start=newest + self._sampling_period, end=timestamp)", "Gap(start=timestamp, end=timestamp)", "C09.GAP"),
     ("fill start index not clamped", BUF,
      "            start_index = max(start_index, 0)\n", "", "C09.GAP"),
+    # ---- controls for the rules added after the sensitivity sweep
+    ("newest bound moved to the earlier slot", BUF,
+     "self._timestamp_newest = max(self._timestamp_newest, timestamp)",
+     "self._timestamp_newest = min(self._timestamp_newest, timestamp)", "C09.STORE"),
+    ("oldest bound on the wrong side of the newest", BUF,
+     "        self._timestamp_oldest = self._timestamp_newest - (\n", "        self._timestamp_oldest = self._timestamp_newest + (\n",
+     "C09.STORE"),
+    ("valid and missing values swapped", BUF,
+     "        if self.has_value(sample):\n            assert sample.value is not None\n",
+     "        if not self.has_value(sample):\n            assert sample.value is not None\n", "C09.STORE"),
+    ("update() rejects everything once something was written", BUF,
+     "            timestamp < self._timestamp_oldest\n            and self._timestamp_oldest",
+     "            timestamp < self._timestamp_oldest\n            or self._timestamp_oldest", "C09.VALID"),
+    ("window() fills a view on the ring", BUF,
+     "        if fill_value is not None and not force_copy:\n", "        if fill_value is None and not force_copy:\n", "C09.VALID"),
+    ("window() answers with nothing on a written buffer", BUF,
+     "        if self.count_covered() == 0:\n", "        if self.count_covered() != 0:\n", "C09.VALID"),
+    ("index query not projected on the covered range", BUF,
+     "            start, end = self._to_covered_indices(start, end)\n", "", "C09.VALID"),
+    ("at() takes the datetime branch for indices", MW,
+     "        if isinstance(key, datetime):\n            assert", "        if not isinstance(key, datetime):\n            assert",
+     "C09.VALID"),
+    ("to_internal_index rejects the slot after the newest", BUF,
+     "            self._timestamp_newest + self._sampling_period < timestamp\n",
+     "            self._timestamp_newest + self._sampling_period <= timestamp\n", "C09.VALID"),
+    ("at() asserts the converted index away", MW,
+     "            assert timestamp is not None\n", "            assert timestamp is None\n", "C09.NONE"),
+    ("full-capacity window fetched as empty", BUF,
+     "        if start_pos >= end_pos:\n", "        if start_pos > end_pos:\n", "C09.FETCH"),
+    ("copy requested, view returned", BUF,
+     "        if force_copy:\n            return deepcopy(arr)\n", "        if not force_copy:\n            return deepcopy(arr)\n",
+     "C09.FETCH"),
+    ("count_valid is 0 on a written buffer", BUF,
+     "        if self._timestamp_newest == self._TIMESTAMP_MIN:\n            return 0\n",
+     "        if self._timestamp_newest != self._TIMESTAMP_MIN:\n            return 0\n", "C09.COUNT"),
+    ("count_valid off by one", BUF,
+     "        return end_pos + 1 - start_pos - sum_missing_entries\n",
+     "        return end_pos - start_pos - sum_missing_entries\n", "C09.COUNT"),
+    ("index 0 counted from the newest end", BUF, "            if index >= 0\n", "            if index > 0\n", "C09.COUNT"),
+    ("NaN counts as a value", BUF,
+     "return not (sample.value is None or sample.value.isnan())",
+     "return not (sample.value is None and sample.value.isnan())", "C09.COUNT"),
+    ("gap list never normalised after an update", BUF,
+     "                self._remove_gap(timestamp)\n\n        self._cleanup_gaps()\n",
+     "                self._remove_gap(timestamp)\n", "C09.GAP"),
+    ("slot written into the only gap stays missing", BUF,
+     "        elif len(self._gaps) > 0:\n", "        elif len(self._gaps) > 1:\n", "C09.GAP"),
+    ("split gap keeps the written slot", BUF,
+     "            new_gap = deepcopy(gap)\n            gap.end = timestamp\n", "            new_gap = deepcopy(gap)\n", "C09.GAP"),
+    ("gaps are filled only when their range is empty", BUF,
+     "            if start_index < end_index:\n", "            if start_index > end_index:\n", "C09.GAP"),
+    ("normalisation steps away from the nearest slot", BUF,
+     "            num_samples += 1\n", "            num_samples -= 1\n", "C09.IDX"),
 ]
 
 
@@ -943,7 +1758,9 @@ def _rules_for(expect: str) -> Any:
     def norm(run: Run, prog: Program) -> None:
         check_norm(run, prog)
         check_valid_window(run, prog)   # the emptiness-guard operands are a C09.NORM obligation decided there
-    return {"C09.NORM": norm, "C09.VALID": check_valid, "C09.GAP": check_gaps, "C09.IDX": check_idx}[expect]
+    return {"C09.NORM": norm, "C09.VALID": check_valid, "C09.GAP": check_gaps, "C09.IDX": check_idx,
+            "C09.STORE": check_store, "C09.FETCH": check_fetch, "C09.COUNT": check_count,
+            "C09.NONE": check_none}[expect]
 
 
 def run_rules(run: Run, prog: Program) -> None:
@@ -951,6 +1768,10 @@ def run_rules(run: Run, prog: Program) -> None:
     check_valid(run, prog)
     check_gaps(run, prog)
     check_idx(run, prog)
+    check_store(run, prog)
+    check_fetch(run, prog)
+    check_count(run, prog)
+    check_none(run, prog)
 
 
 def check(run: Run, prog: Program, tier: str) -> str:
@@ -964,8 +1785,20 @@ def check(run: Run, prog: Program, tier: str) -> str:
              "missing sample records a gap; _fill_gaps writes only inside [0, len(window)]")
     run.rule("C09.IDX", "slot number = round((normalised T - alignment origin) / sampling period), the grid "
              "normalize_timestamp snaps to; wrap() is modulo the capacity")
+    run.rule("C09.STORE", "update() moves the newest bound to max(newest, T) and the oldest to newest - (range - "
+             "period), stores the value (NaN iff missing) at the slot of T after that, and tells the gap "
+             "bookkeeping T, the previous newest slot and whether the sample is missing")
+    run.rule("C09.FETCH", "_wrapped_buffer_window returns buffer[s:e], or buffer[s:] followed by buffer[:e] when the "
+             "ring wraps (e <= s), in the buffer's container type, as a copy when requested")
+    run.rule("C09.COUNT", "has_value, time bounds, oldest/newest timestamp, get_timestamp, covered range and "
+             "count_covered / count_valid report what the bounds and the gap list say")
+    run.rule("C09.NONE", "a value established to be None on a path is not used afterwards on that path")
     run_rules(run, prog)
     run.floor("C09.IDX", 3)
+    run.floor("C09.STORE", 4)
+    run.floor("C09.FETCH", 3)
+    run.floor("C09.COUNT", 10)
+    run.floor("C09.NONE", 3)
     run.floor("C09.NORM", 12)
     run.floor("C09.VALID", 10)
     run.floor("C09.GAP", 6)
